@@ -402,6 +402,34 @@ type stk struct {
 	mgr    *services.ServiceManager
 	addr   string
 	cancel context.CancelFunc
+	repo   domain.EndpointRepository
+}
+
+// firstEP (when set): a higher-priority endpoint in front of the recording one; it refuses every connection, so each
+// request reaches the recording endpoint as a failover (the second attempt of the same request)
+type firstEP struct {
+	url      string
+	preserve bool
+}
+
+var first *firstEP
+
+// reviveFirst marks the refusing endpoint healthy again (the failed attempt took it out of rotation)
+func (s *stk) reviveFirst() {
+	if s.repo == nil {
+		return
+	}
+	all, _ := s.repo.GetAll(context.Background())
+	for _, e := range all {
+		if e.Name == "first" {
+			cp := *e
+			cp.Status = domain.StatusHealthy
+			cp.ConsecutiveFailures = 0
+			cp.BackoffMultiplier = 1
+			cp.NextCheckTime = time.Now().Add(10 * time.Minute)
+			s.repo.UpdateEndpoint(context.Background(), &cp)
+		}
+	}
 }
 
 func startStack(engine, backendAddr, base string, preserve bool) (*stk, error) {
@@ -423,6 +451,11 @@ func startStack(engine, backendAddr, base string, preserve bool) (*stk, error) {
 			URL: "http://" + backendAddr + base, Name: "only", Type: "openai", Priority: &pr,
 			HealthCheckURL: "/zz-health", ModelURL: "/zz-models", CheckInterval: 10 * time.Minute, CheckTimeout: 2 * time.Second, PreservePath: preserve,
 		}}
+		if first != nil {
+			pf := 200
+			cfg.Discovery.Static.Endpoints = append([]config.EndpointConfig{{URL: first.url, Name: "first", Type: "openai", Priority: &pf,
+				HealthCheckURL: "/zz-health", ModelURL: "/zz-models", CheckInterval: 10 * time.Minute, CheckTimeout: 2 * time.Second, PreservePath: first.preserve}}, cfg.Discovery.Static.Endpoints...)
+		}
 		// a port from this process's reserved block (picking a free ephemeral port and closing it again lets another
 		// process's listener take it before the server binds it)
 		cfg.Server.Port = stack.FreePort()
@@ -438,13 +471,14 @@ func startStack(engine, backendAddr, base string, preserve bool) (*stk, error) {
 		if d, err := mgr.GetRegistry().GetDiscovery(); err == nil {
 			repo, _ = d.GetEndpointRepository()
 		}
+		s.repo = repo
 		deadline := time.Now().Add(8 * time.Second)
 		for time.Now().Before(deadline) {
 			conn, err := net.DialTimeout("tcp", s.addr, 200*time.Millisecond)
 			if err == nil {
 				conn.Close()
 				if repo != nil {
-					if h, err := repo.GetHealthy(context.Background()); err == nil && len(h) == 1 {
+					if h, err := repo.GetHealthy(context.Background()); err == nil && len(h) >= 1 {
 						return s, nil
 					}
 				}
@@ -546,6 +580,9 @@ func stackCaseH(c *vlib.Cases, engine, base string, preserve bool, routePrefix, 
 	hostile := fmt.Sprintf("X-Forwarded-Host: %s\r\nForwarded: host=%s;proto=http\r\nX-Original-URL: /admin/secret\r\nX-Rewrite-URL: /admin/secret\r\nX-Forwarded-Prefix: /../..\r\n", decoy.addr, decoy.addr)
 	req := fmt.Sprintf("POST %s HTTP/1.1\r\nHost: %s\r\n%sContent-Type: application/json\r\nContent-Length: %d\r\n\r\n%s", target, hostHdr, hostile, len(body), body)
 	b.take()
+	if first != nil {
+		s.reviveFirst()
+	}
 	before := atomic.LoadInt64(&decoy.conns)
 	status, err := rawDo(s.addr, req)
 	errs := ""
@@ -609,6 +646,41 @@ func stackPart(c *vlib.Cases, r *vlib.Rng, thorough bool) {
 			}
 			s.stop()
 			b.ln.Close()
+		}
+	}
+	// the same request as a FAILOVER: a preferred endpoint with its own base path and preserve_path refuses the connection;
+	// what the recording endpoint is asked for is the request's remaining path under ITS base path, as if it had been first
+	for _, engine := range []string{"sherpa", "olla"} {
+		for _, fc := range []cfg{{"/api/v1", true}, {"/v2/", true}, {"/api/v1", false}} {
+			for _, cf := range []cfg{{"/api/v1", true}, {"", false}, {"/other", true}, {"/", true}} {
+				rb := stack.NewBackend("F")
+				rb.Refuse()
+				first = &firstEP{url: rb.URL() + fc.base, preserve: fc.preserve}
+				b := newBackend()
+				s, err := startStack(engine, b.addr, cf.base, cf.preserve)
+				if err != nil {
+					c.Emit(map[string]any{"kind": "stack-error", "engine": engine, "impl": map[string]any{"err": err.Error()}})
+					first = nil
+					rb.Close()
+					continue
+				}
+				for i, t := range []string{"v1/chat/completions", "v1/x?a=1&b=%2F", "a/b/c", "api/v1/models", "v2/x", ""} {
+					rp := "/olla/proxy/"
+					if i%3 == 1 {
+						rp = "/olla/openai/"
+					}
+					stackCase(c, engine, cf.base, cf.preserve, rp, t, false, s, b, decoy)
+					c.Count("stack.failover")
+				}
+				for i := 0; i < extra/5; i++ {
+					stackCase(c, engine, cf.base, cf.preserve, "/olla/proxy/", genTail(r), false, s, b, decoy)
+					c.Count("stack.failover")
+				}
+				s.stop()
+				b.ln.Close()
+				first = nil
+				rb.Close()
+			}
 		}
 	}
 	decoy.ln.Close()
